@@ -20,7 +20,8 @@ struct Scenario {
     std::string name; int nthreads;
     std::function<void()> prepare;                       // build shared inputs (called once, on the main thread)
     std::function<std::string(int)> work;                // the work of thread i; returns its output bytes
-    std::function<void()> before_run;                    // optional: called after the sequential references, before the threads start
+    std::function<void()> before_run;                    // optional: called before the threads start
+    std::function<void()> after_run;                     // optional: called after the scheduled run, before the sequential references are computed
 };
 
 struct Shared {
@@ -50,14 +51,14 @@ inline std::vector<Scenario> scenarios(int T, int tiny_n, const std::vector<int>
     v.push_back({"K-karatsuba-products", T, [=] { prep_polys(T, 16); }, [](int t) { TorusPolynomial *r = new_TorusPolynomial(16); torusPolynomialMultKaratsuba(r, SH().ia[t], SH().tb[t]); for (int i = 0; i < 16; i++) r->coefsT[i] ^= 0; torusPolynomialAddMulRKaratsuba(r, SH().ia[t], SH().tb[t]); std::string o = poly_bytes(r); delete_TorusPolynomial(r); return o; }});
     // thread churn: between the first FFT use of T0 and the first FFT use of T1, F short-lived threads are created, use the FFT once and exit
     // ("threads created and destroyed repeatedly", thread counts up to 64): per-thread state must not be recycled between live threads
-    for (int F : churn) v.push_back({vf::fmt("H5-thread-churn-%d", F), 2, [=] { prep_polys(4, N); FLAGS()[0] = FLAGS()[1] = 1; /* events already signalled while the references are computed sequentially */ }, [F](int t) {
+    for (int F : churn) v.push_back({vf::fmt("H5-thread-churn-%d", F), 2, [=] { prep_polys(4, N); FLAGS()[0] = FLAGS()[1] = 0; }, [F](int t) {
         TorusPolynomial *r = new_TorusPolynomial(N); std::string o;
         if (t == 0) { torusPolynomialMultFFT(r, SH().ia[0], SH().tb[0]); o = poly_bytes(r); sched::set_flag(&FLAGS()[0]);      // T0 has its per-thread FFT state
                       torusPolynomialMultFFT(r, SH().ia[1], SH().tb[1]); o += poly_bytes(r); sched::wait_flag(&FLAGS()[1]); }    // ... and stays alive until the churn is over
         else { sched::wait_flag(&FLAGS()[0]);
                for (int f = 0; f < F; f++) { std::thread th([] { TorusPolynomial *q = new_TorusPolynomial(N); torusPolynomialMultFFT(q, SH().ia[3], SH().tb[3]); delete_TorusPolynomial(q); }); th.join(); }
                sched::set_flag(&FLAGS()[1]); torusPolynomialMultFFT(r, SH().ia[2], SH().tb[2]); o = poly_bytes(r); }
-        delete_TorusPolynomial(r); return o; }, [] { FLAGS()[0] = FLAGS()[1] = 0; }});
+        delete_TorusPolynomial(r); return o; }, [] { FLAGS()[0] = FLAGS()[1] = 0; }, [] { FLAGS()[0] = FLAGS()[1] = 1; /* events already signalled while the references are computed sequentially */ }});
     return v;
 }
 } // namespace c06
